@@ -245,7 +245,7 @@ pub fn history_session(rep: &mut Report, seed: u64, verbose: bool) -> bool {
         r.er[7] = 0xffe000;
         sess.set_regs(&r);
         let obs = sess.act(Action::Step);
-        let c = Case { pc: code, code: bytes.clone(), er: r.er, ccr: r.ccr, patches: vec![] };
+        let c = Case { pc: code, code: bytes.clone(), er: r.er, ccr: r.ccr, patches: vec![], pending: vec![] };
         let nf = rep.findings.len();
         super::flow::record_session(rep, "C09", &c, &obs, &judge, &replay);
         if rep.findings.len() > nf {
@@ -366,6 +366,63 @@ pub fn c19(rep: &mut Report, cfg: &Cfg) {
             }
         }
     }
+    // ---- histories: the cost depends on the CURRENT settings only. Single registers are rewritten
+    // in random order (DRCRA alone, one wait field alone, ...) with cost queries in between, so a
+    // value derived from the settings and kept somewhere (stale cache) shows up.
+    let mut b = BusRegs::default();
+    for (reg, v) in [(ABWCR, 0u8), (ASTCR, 0), (WCRH, 0), (WCRL, 0), (DRCRA, 0)] {
+        let _ = cpu.bus.write(reg, v);
+    }
+    let all_addrs: Vec<(u32, u32)> = probes.iter().flat_map(|(a, v)| v.iter().map(move |x| (*a, *x))).collect();
+    let steps = cfg.share(cfg.n(300_000, 6_000_000));
+    let mut last_written = 9u64;
+    for _ in 0..steps {
+        let which = rng.below(7);
+        let (reg, v) = match which {
+            0 => (ABWCR, if rng.chance(1, 2) { b.abwcr ^ (1 << rng.below(8)) } else { rng.u8() }),
+            1 => (ASTCR, if rng.chance(1, 2) { b.astcr ^ (1 << rng.below(8)) } else { rng.u8() }),
+            2 => (WCRH, if rng.chance(1, 2) { b.wcrh ^ (1 << rng.below(8)) } else { rng.u8() }),
+            3 => (WCRL, if rng.chance(1, 2) { b.wcrl ^ (1 << rng.below(8)) } else { rng.u8() }),
+            // DRAM-area select toggled on its own (0/1 keeps areas 3-5 out of DRAM space)
+            _ => (DRCRA, ((rng.below(2) as u8) << 5) | (rng.u8() & 0x1f)),
+        };
+        let _ = cpu.bus.write(reg, v);
+        match reg {
+            ABWCR => b.abwcr = v,
+            ASTCR => b.astcr = v,
+            WCRH => b.wcrh = v,
+            WCRL => b.wcrl = v,
+            _ => b.drcra = v,
+        }
+        let written = which.min(4);
+        for _ in 0..(1 + rng.below(3)) {
+            let k = *rng.pick(&kinds);
+            let count = 1 + rng.below(5) as u8;
+            let (area, addr) = *rng.pick(&all_addrs);
+            let Some(c1) = cost1(k, addr, &b) else { continue };
+            rep.evaluations += 1;
+            let want = c1 * count as u32;
+            let got = catch_unwind(AssertUnwindSafe(|| cpu.calc_state_with_addr(st(k), count, addr)));
+            let got = match got {
+                Ok(Ok(v)) => Some(v as u32),
+                Ok(Err(_)) => None,
+                Err(_) => {
+                    let _ = crate::util::take_panic();
+                    None
+                }
+            };
+            rep.cell("history-lastwritten-area-kind", &[written, last_written, area as u64, k as u64]);
+            if got != Some(want) {
+                let space = if area == 8 { "on-chip-RAM".to_string() } else { format!("area-{}", area) };
+                rep.finding(
+                    &format!("cost-history|{}|{:?}", space, k),
+                    || format!("after a history of single-register writes (last: {:06x}={:02x}) calc_state_with_addr({:?}, {}, {:06x}) = {:?}, the current settings {:?} give {}", reg, v, k, count, addr, got, b, want),
+                    || format!("check=C19 kind=cost-history seed={} shard={}", cfg.seed, cfg.shard),
+                );
+            }
+        }
+        last_written = written;
+    }
     rep.exhaustive.push("per area: bus width x access states x 4 wait values x DRAM select (0-7; areas 3-5: 0-1) x 6 kinds x counts 1-5 x first/middle/last address".into());
-    rep.notes.push("C19: exhaustive per-area setting space (width, access-state, wait field, DRAM-area select) x six cycle kinds x counts 1-5 x both ends and interior of every area and of on-chip RAM, each under several seeded random fillings of all other areas' bits (independence); bus-controller registers written through Bus::write, cost read from Cpu::calc_state_with_addr. Cells: (area, width, access-state, wait, DRAM select, kind).".into());
+    rep.notes.push("C19: exhaustive per-area setting space (width, access-state, wait field, DRAM-area select) x six cycle kinds x counts 1-5 x both ends and interior of every area and of on-chip RAM, each under several seeded random fillings of all other areas' bits (independence); bus-controller registers written through Bus::write, cost read from Cpu::calc_state_with_addr. Histories: single registers rewritten in random order with cost queries in between, judged against the current settings (stale derived state). Cells: (area, width, access-state, wait, DRAM select, kind), (register written last, register written before, area, kind).".into());
 }
